@@ -52,13 +52,15 @@ def install(store=None, ids=None, use_mdt=True, now=0, size=None, real_parse=Fal
                     return len(x.data)
                 return quiet.Q(x.size, 1)
             return len(x)
+        s3m.json = type('JsonModel', (), {'loads': staticmethod(lambda text: serializer.decode(text))})
         s3m.compress = compress
         s3m.decompress = decompress
         s3m.len = model_len
         if not real_parse:
             s3m.compile = parse_model.compile
         env.stubs += ['jsonpickle encode/decode -> token model', 'zlib compress/decompress -> opaque blob of arbitrary '
-                      'symbolic length', 'parse.compile -> str.find based inverse-of-format model']
+                      'symbolic length', 'parse.compile -> str.find based inverse-of-format model',
+                      'json.loads in the S3 content filter -> decodes the token']
     if use_mdt:
         if not ctx.REAL:
             s3m.datetime = mdt.MDT
